@@ -406,6 +406,12 @@ def safety_driver(tr, header, top_index, buffers):
                      + ["Make%sView" % t.name.canonical_name.object_path[-1]])
     writes = []
     _scalar_paths(tr, t, "v", 0, writes)
+    skip_names = set()
+    for ty in tr.types:
+        if ty.has_field("structure"):
+            for f in ty.structure.field:
+                if ir_util.field_is_virtual(f) and f.write_method.which_method == "transform":
+                    skip_names.add(f.name.name.text)
     L = [head,
          "template <class T> struct is_bool_t { static const bool value = false; };",
          "template <> struct is_bool_t<bool> { static const bool value = true; };",
@@ -420,6 +426,31 @@ def safety_driver(tr, header, top_index, buffers):
          "  typedef typename ::std::decay<decltype(::std::declval<F>().Read())>::type VT;",
          "  const long long vals[] = {0, 1, 2, 9, 10, 127, 128, 255, 256, 1000, -1, -100};",
          "  for (long long x : vals) { VT y = static_cast<VT>(x); bool c = f.CouldWriteValue(y); bool w = f.TryToWrite(y); sink += c + w; if (f.Ok()) sink += static_cast<long long>(f.Read()); }",
+         "}",
+         "// adversarial numerals for the text reader: every numeric token of a written text replaced by literals at and just",
+         "// beyond the limits of every integer type, in every base, with signs, separators and malformed shapes",
+         "static const char *const kLiterals[] = {\"-0x8000000000000001\", \"-0x800000000000000f\", \"-0x8000000000000000\", \"-0x80000001\", \"-0x8000000f\",",
+         "  \"-0x80000000\", \"-0x8001\", \"-0x8000\", \"-0x81\", \"-0x80\", \"-0b10000001\", \"-0b10000000\", \"-0b1000000000000001\",",
+         "  \"-0b10000000000000000000000000000001\", \"-0b1000000000000000000000000000000000000000000000000000000000000001\",",
+         "  \"-9223372036854775809\", \"-9223372036854775808\", \"9223372036854775807\", \"9223372036854775808\", \"18446744073709551615\", \"18446744073709551616\",",
+         "  \"0xffffffffffffffff\", \"0x1_0000_0000_0000_0000\", \"0xffff_ffff_ffff_ffff_f\", \"-2147483649\", \"-2147483648\", \"2147483648\", \"4294967296\", \"-32769\", \"65536\", \"-129\", \"-128\", \"256\",",
+         "  \"-0\", \"0b\", \"0x\", \"-\", \"_1\", \"1_\", \"1__2\", \"--1\", \"+1\", \"1e5\", \"0x-1\", \"99999999999999999999999999999999\", \"-99999999999999999999999999999999\", \"true\", \"NaN\", \"-Inf\"};",
+         "// writable add/subtract virtual fields are left out here: their known overflow (finding F8) is probed separately and would end the run",
+         "static const char *const kSkipNames[] = {%s\"\"};" % "".join('"%s", ' % n for n in sorted(skip_names)),
+         "static bool num_start(const ::std::string &t, ::std::size_t i) { return (t[i] >= '0' && t[i] <= '9') || (t[i] == '-' && i + 1 < t.size() && t[i + 1] >= '0' && t[i + 1] <= '9'); }",
+         "static bool num_char(char c) { return (c >= '0' && c <= '9') || (c >= 'a' && c <= 'f') || (c >= 'A' && c <= 'F') || c == 'x' || c == 'X' || c == '_' || c == '-'; }",
+         "static bool skipped_name(const ::std::string &t, ::std::size_t i) {   // is the numeral at i the value of a field in kSkipNames?",
+         "  ::std::size_t e = i; while (e > 0 && t[e - 1] == ' ') --e; if (e == 0 || t[e - 1] != ':') return false; --e;",
+         "  ::std::size_t b = e; while (b > 0 && ((t[b - 1] >= 'a' && t[b - 1] <= 'z') || (t[b - 1] >= '0' && t[b - 1] <= '9') || t[b - 1] == '_')) --b;",
+         "  ::std::string nm = t.substr(b, e - b); for (const char *k : kSkipNames) if (nm == k) return true; return false; }",
+         "template <class V> void text_literals(V w, const ::std::string &t) {",
+         "  for (::std::size_t i = 0; i < t.size(); ++i) {",
+         "    if (num_start(t, i) && skipped_name(t, i)) { while (i < t.size() && num_char(t[i])) ++i; continue; }",
+         "    if (!num_start(t, i) || (i > 0 && (num_char(t[i - 1]) || (t[i - 1] >= 'g' && t[i - 1] <= 'z') || (t[i - 1] >= 'G' && t[i - 1] <= 'Z')))) continue;",
+         "    ::std::size_t j = i + 1; while (j < t.size() && num_char(t[j])) ++j;",
+         "    for (const char *lit : kLiterals) { ::std::string m = t.substr(0, i) + lit + t.substr(j); sink += ::emboss::UpdateFromText(w, m); }",
+         "    i = j;",
+         "  }",
          "}",
          "static int cur_len = -1;",
          "static void mark(const char *what, int b) { ::std::printf(\"@ buffer=%d op=%s\\n\", b, what); ::std::fflush(stdout); }",
@@ -441,6 +472,7 @@ def safety_driver(tr, header, top_index, buffers):
         L.append('      // every numeric base, with and without digit grouping (the digit buffers of the integer writer)')
         L.append('      for (int base : {2, 10, 16}) for (int grp = 0; grp < 2; ++grp) { ::std::string t3 = ::emboss::WriteToString(v, ::emboss::TextOutputOptions().WithAllowPartialOutput(true).WithNumericBase(base).WithDigitGrouping(grp != 0)); sink += (long long)t3.size(); sink += ::emboss::UpdateFromText(w, t3); }')
         L.append('      mark("update_from_text", %d); sink += ::emboss::UpdateFromText(w, t1); sink += ::emboss::UpdateFromText(w, t2); sink += ::emboss::UpdateFromText(w, "{ bogus: 1 }"); sink += ::emboss::UpdateFromText(w, "{"); }' % bi)
+        L.append('    if (n == full) { mark("text_literals", %d); text_literals(w, ::emboss::WriteToString(v, ::emboss::TextOutputOptions().WithAllowPartialOutput(true))); }' % bi)
         L.append('    mark("copy_equals", %d); sink += w.TryToCopyFrom(v); if (v.Ok() && w.Ok()) { sink += v.Equals(w); sink += w.Equals(v); }' % bi)
         L.append('    mark("copy_other_length", %d); { unsigned char *buf3 = static_cast<unsigned char *>(::std::malloc(full ? full : 1)); ::std::memcpy(buf3, init, full);' % bi)
         L.append('      auto vf = %s(buf3, full); sink += w.TryToCopyFrom(vf); sink += vf.TryToCopyFrom(v); if (vf.Ok() && v.Ok()) sink += vf.Equals(v) + v.Equals(vf); ::std::free(buf3); }' % name)
